@@ -1,4 +1,5 @@
 import AslProofs.ArrayRefine
+import AslProofs.ArraySpecLemmas
 /-!
 # C01 — Array, Stack and Queue behave as a sequence for every operation history
 
@@ -122,14 +123,6 @@ example : AllSafe intE St.init Sp.init
 
 /-! ## lifecycle -/
 
-theorem sumN_eq_zero (bs : List (Option (Raw α))) (h : ∀ (b : Nat) (r : Raw α), bs[b]? ≠ some (some r)) : sumN bs = 0 := by
-  induction bs with
-  | nil => rfl
-  | cons a t ih =>
-    cases a with
-    | none => exact ih (fun b r hb => h (b + 1) r (by simpa using hb))
-    | some r => exact absurd (by simp) (h 0 r)
-
 /-- In every state reachable by a history of the refinement theorem: the number of live element objects
 (constructor calls minus destructor calls) is the total length of the live blocks, every live block is
 referenced by as many handles as its `rc` says (at least one), and when the last handle is gone no block and
@@ -154,5 +147,60 @@ theorem lifecycle [DecidableEq α] (E : Elem α) (ops : List (Op α)) (hsafe : A
     have hocc : st'.occ i = true := (occ_iff st' i).mpr ⟨b, by rw [List.getElem?_eq_getElem hi, hget]⟩
     rw [hall i] at hocc; cases hocc
   exact ⟨by rw [hf.sum, sumN_eq_zero _ hnone], hnone⟩
+
+/-! ## consequences inside the reference semantics (inherited by the model through `array_refines_seq_partial`:
+every reachable model state is `Good st sp`, and `Good.spwf` gives the hypotheses used here) -/
+
+/-- **A clone is unaffected by later changes to its source** (reference semantics): after `t = h.clone()`,
+`t` shows the elements of `h`, and whatever `F` a later operation applies through `h` (or any handle sharing
+with `h`), `t` still shows the same elements while `h` shows `F` of them. -/
+theorem clone_independent (sp : Sp α) (hwf : SpWf sp) (hlen : sp.hs.length = 8) (t h : Nat) (ht : t < NS) (hh : h < NS)
+    (hne : t ≠ h) (ho : sp.occ h = true) (F : List α → List α) :
+    (sProduce sp t (sp.get h)).get t = sp.get h ∧
+    (sMut (sProduce sp t (sp.get h)) h F).get t = sp.get h ∧
+    (sMut (sProduce sp t (sp.get h)) h F).get h = F (sp.get h) := by
+  obtain ⟨c, hc⟩ := (sp_occ_iff sp h).mp ho
+  have hclt := hwf h c hc
+  obtain ⟨h1, h2, h3, h4, h5⟩ := sProduce_slots sp hlen t ht (sp.get h)
+  have hhT : h ≠ T0 := by unfold NS at hh; unfold T0; omega
+  have hc' : (sProduce sp t (sp.get h)).hs[h]? = some (some c) := by rw [h3 h (fun e => hne e.symm) hhT]; exact hc
+  have hgt : (sProduce sp t (sp.get h)).get t = sp.get h := by rw [get_of_slot h1]; exact h2
+  have hgh : (sProduce sp t (sp.get h)).get h = sp.get h := by rw [get_of_slot hc', h4 c hclt, get_of_slot hc]
+  generalize sProduce sp t (sp.get h) = sp' at h1 h2 h3 h4 h5 hc' hgt hgh
+  refine ⟨hgt, ?_, ?_⟩
+  · rw [get_sMut_other hc' h1 (by omega) F]; exact hgt
+  · rw [sMut_eq F hc']
+    have hc'' : (⟨sp'.cells.set c (F (sp'.cells.getD c [])), sp'.hs⟩ : Sp α).hs[h]? = some (some c) := hc'
+    rw [get_of_slot hc'']
+    show (sp'.cells.set c (F (sp'.cells.getD c []))).getD c [] = _
+    rw [List.getD_eq_getElem?_getD, List.getElem?_set_self (by omega), h4 c hclt, ← get_of_slot hc]; rfl
+
+
+/-- **Stack is LIFO** (reference semantics): `push(v)` then `popget()` returns `v` and restores the sequence -/
+theorem stack_lifo [DecidableEq α] (E : Elem α) (sp : Sp α) (hwf : SpWf sp) (h : Nat) (ho : sp.occ h = true) (v : α) :
+    (specStep E (specStep E sp (.app h v)).1 (.popget h)).2 = Res.val v ∧
+    (specStep E (specStep E sp (.app h v)).1 (.popget h)).1.get h = sp.get h := by
+  have h1 : (specStep E sp (.app h v)).1 = sMut sp h (fun l => l ++ [v]) := by simp [specStep, ho]
+  rw [h1]
+  have ho1 : (sMut sp h fun l => l ++ [v]).occ h = true := by rw [sMut_occ]; exact ho
+  have hg1 : (sMut sp h fun l => l ++ [v]).get h = sp.get h ++ [v] := get_sMut_self hwf ho _
+  simp only [specStep, ho1, if_true, hg1, List.getLast?_append, List.getLast?_singleton, Option.some_or]
+  refine ⟨by first | rfl | trivial, ?_⟩
+  rw [get_sMut_self (sMut_wf hwf h _) ho1, hg1]; simp
+
+/-- **Queue is FIFO** (reference semantics): `get()` returns the oldest element and leaves the rest in order;
+`put(v)` adds at the end -/
+theorem queue_fifo [DecidableEq α] (E : Elem α) (sp : Sp α) (hwf : SpWf sp) (h : Nat) (ho : sp.occ h = true) (x v : α) (t : List α)
+    (hl : sp.get h = x :: t) :
+    (specStep E sp (.qget h)).2 = Res.val x ∧ (specStep E sp (.qget h)).1.get h = t ∧
+    (specStep E sp (.app h v)).1.get h = x :: t ++ [v] := by
+  simp only [specStep, ho, if_true, hl]
+  refine ⟨by first | rfl | trivial, ?_, ?_⟩
+  · rw [get_sMut_self hwf ho, hl]; rfl
+  · rw [get_sMut_self hwf ho, hl]
+
+
+/-- the hypotheses `SpWf`, `hs.length = 8` hold in every state related to a reachable model state -/
+theorem reachable_spec_wf {st : St α} {sp : Sp α} (hg : Good st sp) : SpWf sp ∧ sp.hs.length = 8 := hg.spwf
 
 end C01
